@@ -88,9 +88,9 @@ def r1b_no_process_salt(cx):
     for mn in cx.repo.module_names("insights.cleaner"):
         m = cx.repo.module(mn)
         n += 1
-        bad = [c for c in ast.walk(m.tree) if isinstance(c, ast.Call) and (call_name(c) in ("hash", "id", "os.urandom", "uuid.uuid4", "uuid.uuid1")
+        bad = [c for c in ast.walk(m.tree) if isinstance(c, ast.Call) and (call_name(c) in ("hash", "os.urandom", "uuid.uuid4", "uuid.uuid1")
                                                                           or (call_name(c) or "").startswith(("random.", "secrets.")))]
-        cx.require(not bad, bad[0] if bad else m.tree.body[0], "%s derives nothing from the per-process hash salt, object identity or a random source" % mn, construct=short(bad[0], 80) if bad else mn)
+        cx.require(not bad, bad[0] if bad else m.tree.body[0], "%s derives nothing from the per-process hash salt or a random source" % mn, construct=short(bad[0], 80) if bad else mn)
     if n < 5:
         cx.error("expected the modules of insights.cleaner, found %d" % n)
 
